@@ -714,6 +714,7 @@ SoPlexBase<R>::SoPlexBase(const SoPlexBase<R>& rhs)
    _currentSettings = new(_currentSettings) Settings();
 
    _rationalLP = nullptr;
+   _realLP = nullptr;
 
    // call assignment operator
    *this = rhs;
@@ -6158,6 +6159,24 @@ bool SoPlexBase<R>::setIntParam(const IntParam param, const int value, const boo
 
       if(_boostedScaler != nullptr)
          _boostedScaler->setTolerances(this->_tolerances);
+
+      // the scaling factors of a persistently scaled LP are stored in the LP; a newly selected scaler must refer to
+      // them, and without a scaler the LP cannot stay scaled
+      if(_realLP != nullptr && _realLP->isScaled())
+      {
+         if(_scaler != nullptr)
+            _scaler->attach(*_realLP);
+         else
+         {
+            if(_realLP == &_solver)
+               _solver.unscaleLPandReloadBasis();
+            else
+               _realLP->unscaleLP();
+
+            _isRealLPScaled = false;
+            ++_unscaleCalls;
+         }
+      }
 
       break;
 
